@@ -243,7 +243,23 @@ def extract():
     # translate_literal
     g = read(GENEXPR)
     mg = mask(g)
+    # translate_literal = the verification hook `literal` (cfg prqlc_verif: logs the literal received, the two dialect answers
+    # consulted and the SQL text returned) around translate_literal_inner, which is the modelled function.
+    # A tree without the hook fails closed here: the correspondence stream `literal-hook` depends on it.
     s, e = block_after(g, mg, r"fn\s+translate_literal\b[^{]*\{")
+    want_hook = ('#[cfg(prqlc_verif)] let verif_in = l.clone(); let res = translate_literal_inner(l, ctx); #[cfg(prqlc_verif)] log::debug!( "verif:literal {}", '
+                 'serde_json::json!({ "lit": verif_in, "f64_bits": match &verif_in { Literal::Float(f) => Some(format!("{:016x}", f.to_bits())), _ => None, }, '
+                 '"sqlite": ctx.dialect.is::<crate::sql::dialect::SQLiteDialect>(), "bs": ctx.dialect.string_literal_backslash_escape(), '
+                 '"out": res.as_ref().ok().map(|e| e.to_string()), }) ); res')
+    if norm(g[s:e]) != want_hook:
+        raise ExtractError("translate_literal is not the verification hook `literal` around translate_literal_inner (hooks/literal.diff not applied, or changed)")
+    if not re.search(r"\n(pub\(super\) )?fn translate_literal_inner\(l: Literal, ctx: &Context\) -> Result<sql_ast::Expr> \{", g):
+        raise ExtractError("translate_literal_inner: signature changed")
+    info["hook_literal"] = True
+    s, e = block_after(g, mg, r"fn\s+translate_literal_inner\b[^{]*\{")
+    if not re.fullmatch(r"\s*Ok\(match\s+l\s*\{.*\}\)\s*", mg[s:e], re.S):
+        raise ExtractError("translate_literal_inner is no longer a single `Ok(match l { ... })`")
+    inner_span = (s, e)
     s2, e2 = block_after(g[s:e], mg[s:e], r"Ok\(match\s+l\s*\{")
     arms = dict((norm(p), norm(b)) for p, b in match_arms(g[s:e], mg[s:e], s2, e2))
     want = {
@@ -286,7 +302,8 @@ def extract():
     info["writer_bs"] = extract_backslash_flags()
     uses = [f for f in ("gen_expr.rs", "gen_query.rs", "gen_projection.rs", "operators.rs", "mod.rs")
             if re.search(r"\b%s\b" % BS_FLAG, mask(read("prqlc/prqlc/src/sql/" + f)))]
-    if uses != ["gen_expr.rs"] or len(re.findall(r"\b%s\b" % BS_FLAG, mg)) != 1:
+    # two mentions in gen_expr.rs: the modelled use in translate_literal_inner and the read-only one in the hook
+    if uses != ["gen_expr.rs"] or len(re.findall(r"\b%s\b" % BS_FLAG, mg)) != 2 or len(re.findall(r"\b%s\b" % BS_FLAG, mg[inner_span[0]:inner_span[1]])) != 1:
         raise ExtractError("%s is consulted somewhere else than once in translate_literal: %s" % (BS_FLAG, uses))
     info["reader"] = reader_flags([n for n, _ in info["writer_bs"]])
 
